@@ -32,15 +32,13 @@ import (
 func init() {
 	real := []string{"Start/CoreLoop/ProcessSegments/Stop", "SourceControl.WriteControl, SetExperimentStateLabel, ConfigureProjectorsBasis, ConfigureTriggers",
 		"AnySource.WriteControl / writeControlStart / makeDirectory", "WritingState", "HandleExternalTriggers / HandleDataDrop", "DataPublisher + ljh/off writers + asyncbufio on real files"}
-	stub := []string{"hardware (ScriptedSource feeding harness-made blocks with external-trigger lists and drop counts)", "ZMQ publishers and status publisher (sinks)", "net/rpc transport"}
+	stub := []string{"hardware (ScriptedSource feeding harness-made blocks with external-trigger lists and drop counts; its channel table is drawn: one uniform array, Abaco-like channel groups of unequal size, or Lancero-like cards of unlike rows x columns, 1 to 16 channels)", "ZMQ publishers and status publisher (sinks)", "net/rpc transport"}
 	for _, p := range []struct{ name, prop string }{{"C06", "C06"}, {"C05b", "C05"}, {"C20", "C20"}} {
 		p := p
 		ck := &simrt.Check{Name: p.name, Property: p.prop, Body: func(env *simrt.Env) { wcBody(env, p.name) }, Classify: classify, Real: real, Stub: stub}
-		if p.name != "C05b" {
-			ck.Judge = wcJudge
-			ck.Stub = append(append([]string{}, stub...), "full disk for one class of run-log side files (faulted runs: the handle is /dev/full, every write fails with ENOSPC)",
-				"failing creation of the experiment-state file (faulted runs: os.Create interposed)")
-		}
+		ck.Judge = wcJudge
+		ck.Stub = append(append([]string{}, stub...), "full disk for one class of run-log side files (faulted runs: the handle is /dev/full, every write fails with ENOSPC)",
+			"failing creation of the experiment-state file (faulted runs: os.Create interposed)")
 		simrt.Register(ck)
 	}
 }
@@ -119,6 +117,8 @@ type wcSession struct {
 	offProj [][]*wcProjSet
 	// gone: the operator deleted or renamed the (stopped) session's directory
 	gone bool
+	// ident: the source's channel table (the truth the headers are compared with)
+	ident *wcIdentity
 	// life: the run of the source (1, 2, ...) in which the session started
 	life int
 	// I/O faults: handles substituted / creation failed before the session's START request
@@ -174,6 +174,206 @@ type wcSource struct {
 	failStack  string
 	deactivate int // calls of RunDoneDeactivate (ends of a run)
 	run        *wcRun
+	// ident is the channel table of the simulated hardware (names, numbers, array geometry, sub-frame
+	// parameters per channel): what a real source learns from its cards / channel groups.
+	ident *wcIdentity
+}
+
+// wcChanIdent is the true identity of one channel.
+type wcChanIdent struct {
+	name                 string
+	number               int
+	row, col, rows, cols int
+	suboff               int
+}
+
+// wcIdentity is the channel table of the world's source. The harness draws it; PrepareChannels hands it
+// to dastard the way the real sources' PrepareChannels do; the file oracle reads it, never the copy
+// dastard holds.
+type wcIdentity struct {
+	layout   string // uniform | groups | cards
+	source   string // the data source's name as the headers must state it
+	ch       []wcChanIdent
+	subdiv   int
+	groups   []GroupIndex
+	perPixel int
+	desc     string
+}
+
+// geometries returns the number of distinct (rows, cols) pairs among the channels.
+func (id *wcIdentity) geometries() int {
+	seen := map[[2]int]bool{}
+	for _, c := range id.ch {
+		seen[[2]int{c.rows, c.cols}] = true
+	}
+	return len(seen)
+}
+
+// wcDrawIdentity draws the channel table. Three families, as the real sources make them:
+//   - uniform: one rows x cols array, column-major, every channel with the same geometry (the simulated
+//     sources, a Roach, one Lancero card, one Abaco group);
+//   - groups: an Abaco-like source, every channel group a column of its own length (rows = the group's size,
+//     cols = number of groups), numbers = first channel of the group + index, gaps between groups;
+//   - cards: a Lancero-like source, several cards each with its own rows x cols, numbering with the
+//     first-row number / column separation / card separation options, optionally an error and a feedback
+//     channel per pixel that share a number ("err7", "chan7"), sub-frame offset = row.
+//
+// One channel and many (up to 16) channels are both drawn.
+func wcDrawIdentity() *wcIdentity {
+	id := &wcIdentity{perPixel: 1}
+	kind := simrt.Draw(8)
+	many := kind == 7
+	if many {
+		kind = 3 + simrt.Draw(4)
+	}
+	limit := 12
+	if many {
+		limit = 16
+	}
+	switch {
+	case kind < 3:
+		id.layout, id.source = "uniform", "Scripted"
+		rows := 1 + simrt.Draw(3)
+		cols := 1 + simrt.Draw(2)
+		base := []int{0, 1, 1, 17, 4000}[simrt.Draw(5)]
+		id.subdiv = []int{1, rows, 64}[simrt.Draw(3)]
+		for i := 0; i < rows*cols; i++ {
+			id.ch = append(id.ch, wcChanIdent{name: fmt.Sprintf("chan%d", base+i), number: base + i, row: i % rows, col: i / rows, rows: rows, cols: cols, suboff: (i % rows) % id.subdiv})
+		}
+		id.groups = []GroupIndex{{Firstchan: base, Nchan: rows * cols}}
+		id.desc = fmt.Sprintf("uniform %dx%d, numbers from %d", rows, cols, base)
+	case kind < 5:
+		id.layout, id.source = "groups", "Abaco"
+		ng := 1 + simrt.Draw(4)
+		maxSize := 4
+		if many {
+			ng, maxSize = 3+simrt.Draw(3), 6
+		}
+		next := []int{0, 1, 100}[simrt.Draw(3)]
+		id.subdiv = []int{64, 1, 7}[simrt.Draw(3)]
+		offsets := simrt.Draw(2) == 0 // (Abaco itself: all zero)
+		var sizes []int
+		total := 0
+		for g := 0; g < ng; g++ {
+			sz := 1 + simrt.Draw(maxSize)
+			if total+sz > limit {
+				sz = limit - total
+			}
+			if sz <= 0 {
+				break
+			}
+			sizes = append(sizes, sz)
+			total += sz
+		}
+		for g, sz := range sizes {
+			id.groups = append(id.groups, GroupIndex{Firstchan: next, Nchan: sz})
+			for r := 0; r < sz; r++ {
+				so := 0
+				if offsets {
+					so = simrt.Draw(id.subdiv)
+				}
+				id.ch = append(id.ch, wcChanIdent{name: fmt.Sprintf("chan%d", next+r), number: next + r, row: r, col: g, rows: sz, cols: len(sizes), suboff: so})
+			}
+			next += sz + []int{0, 0, 5, 64}[simrt.Draw(4)]
+		}
+		id.desc = fmt.Sprintf("channel groups of sizes %v", sizes)
+	default:
+		id.layout, id.source = "cards", "Lancero"
+		ncards := 1 + simrt.Draw(3)
+		type card struct{ nrows, ncols int }
+		var cards []card
+		maxRows := 3
+		if many {
+			maxRows = 4
+		}
+		pixels := 0
+		for k := 0; k < ncards; k++ {
+			cd := card{1 + simrt.Draw(maxRows), 1 + simrt.Draw(2)}
+			if pixels+cd.nrows*cd.ncols > limit {
+				break
+			}
+			cards = append(cards, cd)
+			pixels += cd.nrows * cd.ncols
+		}
+		pairs := simrt.Draw(2) == 0 && 2*pixels <= limit
+		if pairs {
+			id.perPixel = 2
+		}
+		first := []int{0, 1, 2, 33}[simrt.Draw(4)]
+		sepCols := []int{0, 4, 32}[simrt.Draw(3)]
+		sepCards := []int{0, 64, 1000}[simrt.Draw(3)]
+		fbOffsetZero := simrt.Draw(2) == 0 // the feedback channel of a pair reads 0 (as the Lancero source has it) or its row
+		for _, cd := range cards {
+			if cd.nrows > id.subdiv {
+				id.subdiv = cd.nrows
+			}
+		}
+		cnum := first
+		thisColFirst := cnum - sepCols
+		for k, cd := range cards {
+			if sepCards > 0 {
+				cnum = k*sepCards + first
+				thisColFirst = cnum - sepCols
+			}
+			for col := 0; col < cd.ncols; col++ {
+				if sepCols > 0 {
+					cnum = thisColFirst + sepCols
+				}
+				thisColFirst = cnum
+				id.groups = append(id.groups, GroupIndex{Firstchan: cnum, Nchan: cd.nrows})
+				for row := 0; row < cd.nrows; row++ {
+					if pairs {
+						id.ch = append(id.ch, wcChanIdent{name: fmt.Sprintf("err%d", cnum), number: cnum, row: row, col: col, rows: cd.nrows, cols: cd.ncols, suboff: row})
+					}
+					so := row
+					if pairs && fbOffsetZero {
+						so = 0
+					}
+					id.ch = append(id.ch, wcChanIdent{name: fmt.Sprintf("chan%d", cnum), number: cnum, row: row, col: col, rows: cd.nrows, cols: cd.ncols, suboff: so})
+					cnum++
+				}
+			}
+		}
+		id.desc = fmt.Sprintf("cards %v, err/chan pairs %v, first number %d, column separation %d, card separation %d", cards, pairs, first, sepCols, sepCards)
+	}
+	simrt.Hit("identity:layout:" + id.layout)
+	if len(id.ch) == 1 {
+		simrt.Hit("identity:one-channel")
+	}
+	if len(id.ch) >= 8 {
+		simrt.Hit("identity:eight-or-more-channels")
+	}
+	if id.geometries() > 1 {
+		simrt.Hit("identity:channels-do-not-share-one-geometry")
+	}
+	if id.ch[0].number != 1 {
+		simrt.Hit("identity:numbering-does-not-start-at-1")
+	}
+	if id.perPixel == 2 {
+		simrt.Hit("identity:error-and-feedback-channel-share-a-number")
+	}
+	return id
+}
+
+// PrepareChannels is part of DataSource: the channel table of the simulated hardware, handed over the way
+// AbacoSource / LanceroSource.PrepareChannels do it.
+func (s *wcSource) PrepareChannels() error {
+	id := s.ident
+	n := len(id.ch)
+	s.channelsPerPixel = id.perPixel
+	s.groupKeysSorted = append([]GroupIndex{}, id.groups...)
+	s.chanNames = make([]string, n)
+	s.chanNumbers = make([]int, n)
+	s.subframeOffsets = make([]int, n)
+	s.rowColCodes = make([]RowColCode, n)
+	s.subframeDivisions = id.subdiv
+	for i, c := range id.ch {
+		s.chanNames[i] = c.name
+		s.chanNumbers[i] = c.number
+		s.subframeOffsets[i] = c.suboff
+		s.rowColCodes[i] = rcCode(c.row, c.col, c.rows, c.cols)
+	}
+	return nil
 }
 
 // wcRun counts per run of the source: a producer that is still finishing its last step when the next
@@ -189,11 +389,6 @@ func (s *wcSource) StartRun() error {
 	run := new(wcRun)
 	s.run = run
 	s.delivered = 0
-	if s.geomRows > 0 && s.subframeDivisions > 1 {
-		for i := range s.subframeOffsets {
-			s.subframeOffsets[i] = (i % s.geomRows) % s.subframeDivisions
-		}
-	}
 	abort, next, feed := s.abortSelf, s.nextBlock, s.feed
 	go func() {
 		for {
@@ -303,16 +498,17 @@ type wcBlockEv struct {
 }
 
 func wcBody(env *simrt.Env, check string) {
-	rows := 1 + simrt.Draw(3)
-	cols := 1 + simrt.Draw(2)
-	nchan := rows * cols
+	ident := wcDrawIdentity()
+	nchan := len(ident.ch)
 	nsamp := []int{8, 16, 40}[simrt.Draw(3)]
 	npre := 3 + simrt.Draw(nsamp-4)
 	rate := 10000.0
 	w := newPipeWorld(env, nchan, npre, nsamp, rate)
 	// this world's source: a ScriptedSource whose end of run can be observed (see wcSource)
 	src := new(wcSource)
-	src.name = "Scripted"
+	src.name = ident.source
+	src.ident = ident
+	src.subframeDivisions = ident.subdiv
 	src.nchan = nchan
 	src.sampleRate = rate
 	src.samplePeriod = time.Duration(roundint(1e9 / rate))
@@ -320,8 +516,6 @@ func wcBody(env *simrt.Env, check string) {
 	w.ss = &src.ScriptedSource
 	w.ss.heartbeats = w.sc.heartbeats
 	resetViper(env.Dir)
-	w.ss.geomRows = rows
-	w.ss.subframeDivisions = []int{1, rows, 64}[simrt.Draw(3)]
 	for c := range w.signed {
 		w.signed[c] = simrt.Draw(2) == 0
 	}
@@ -331,8 +525,17 @@ func wcBody(env *simrt.Env, check string) {
 	w.stream = make([][]RawType, nchan)
 	for c := 0; c < nchan; c++ {
 		s := make([]RawType, total)
-		for i := range s {
-			s[i] = RawType(1000*(c+1) + i%97 + simrt.Draw(3))
+		if nchan <= 6 {
+			for i := range s {
+				s[i] = RawType(1000*(c+1) + i%97 + simrt.Draw(3))
+			}
+		} else {
+			// (many channels: one draw per channel instead of one per sample keeps the tape short)
+			x := uint32(simrt.Draw(1<<16)) + 1
+			for i := range s {
+				x = x*1664525 + 1013904223
+				s[i] = RawType(1000*(c+1) + i%97 + int((x>>16)%3))
+			}
 		}
 		w.stream[c] = s
 	}
@@ -404,13 +607,15 @@ func wcBody(env *simrt.Env, check string) {
 	}
 	startSource()
 
-	// I/O faults (C06 and C20, faulted runs). Record files are never affected.
+	// I/O faults (faulted runs of all three checks). Record files are never affected: C05b's content oracle
+	// stays exact, and a STOP (or the end of a run) that meets a failing side file must still leave every
+	// record file complete and closed.
 	//  * full disk for one class of run-log side files: the handle is on /dev/full, every write fails;
 	//  * the creation of the experiment-state file fails once (EIO, ENOSPC, EMFILE, EACCES, or ENOENT as
 	//    when the run directory vanished between two steps of START).
 	var fullFS *simrt.FaultFS
 	faultClass := ""
-	if env.Faulted() && check != "C05b" {
+	if env.Faulted() {
 		switch simrt.DrawFault(4) {
 		case 0:
 		case 1, 2:
@@ -439,7 +644,10 @@ func wcBody(env *simrt.Env, check string) {
 		return fullFS.FullFired
 	}
 	createFailed := func() bool { return fullFS != nil && fullFS.Fired }
-	env.Op("write-control world rows=%d cols=%d nsamp=%d npre=%d subdiv=%d projectors=%v", rows, cols, nsamp, npre, w.ss.subframeDivisions, hasProj)
+	env.Op("write-control world: %d channels (%s; source %q), nsamp=%d npre=%d subdiv=%d projectors=%v", nchan, ident.desc, ident.source, nsamp, npre, ident.subdiv, hasProj)
+	for c, ci := range ident.ch {
+		env.Op("  channel %d: %s number %d, row %d of %d, column %d of %d, sub-frame offset %d", c, ci.name, ci.number, ci.row, ci.rows, ci.col, ci.cols, ci.suboff)
+	}
 
 	basePath := filepath.Join(env.Dir, "data")
 	var sessions []*wcSession
@@ -674,7 +882,7 @@ func wcBody(env *simrt.Env, check string) {
 			}
 			cur = &wcSession{dir: dir, pattern: now.FilenamePattern, types: [3]bool{now.WriteLJH22, now.WriteLJH3, now.WriteOFF}, expected: make([][3][]*DataRecord, nchan),
 				offEligible: append([]bool{}, hasProj...), projAtStart: append([]*wcProjSet{}, projNow...), offProj: make([][]*wcProjSet, nchan),
-				life: lives}
+				life: lives, ident: ident}
 			// I/O faults that happened before this request are not this session's (the request itself is)
 			cur.fullAtStart = fullFiredBefore
 			cur.createFailedBefore = createFailedBefore
@@ -981,6 +1189,10 @@ func wcBody(env *simrt.Env, check string) {
 				if strings.HasPrefix(req, "START") && createFailed() && !createFailedBefore {
 					simrt.Hit("start-answered-with-an-error-but-reported-active")
 				}
+				if req == "STOP" && prev.Active && !now.Active {
+					// (the session is over according to the report: its record files must be complete and closed)
+					simrt.Hit("stop-answered-with-an-error-and-reported-inactive")
+				}
 			}
 		}
 		// the WRITING status message, when one was sent, equals the reported state
@@ -1055,6 +1267,9 @@ func wcBody(env *simrt.Env, check string) {
 		if err != nil && !ioFault() {
 			simrt.Fail("C06.stop-state", "wc:stop-refused-while-active", "STOP was refused (%v) while the reported state was %s", err, stateString(state))
 		}
+		if err != nil && !now.Active {
+			simrt.Hit("stop-answered-with-an-error-and-reported-inactive")
+		}
 		if now.Active {
 			// the report still says active (only possible when the STOP met an I/O failure): then records
 			// are still being stored, or the report is wrong
@@ -1077,6 +1292,16 @@ func wcBody(env *simrt.Env, check string) {
 		var dummy string
 		var ok bool
 		simrt.Within(60*time.Second, check+".stop-returns", "wc:stop-hangs", func() { w.sc.Stop(&dummy, &ok) })
+	}
+	if check != "C20" {
+		// What a stopped session left is final: records published after its STOP (or after the end of its run) are
+		// in no file of it, whatever happened since (later sessions, runs of the source, the source's Stop).
+		for _, s := range sessions {
+			if s.stopped && !s.gone {
+				simrt.Hit("stopped-session-files-judged-again-at-the-end-of-the-history")
+				checkSessionFiles(w, check, s)
+			}
+		}
 	}
 	nrec := 0
 	for _, s := range sessions {
@@ -1106,6 +1331,11 @@ func checkSessionFiles(w *pipeWorld, check string, s *wcSession) {
 	fds := openFDsUnder(s.dir)
 	if len(fds) > 0 && !s.afterFailStop {
 		rule, sig := "C06.stop-closes-files", "wc:files-open-after-stop"
+		if check == "C05b" {
+			// (C05: "after writing is stopped ... the file length equals the header plus the sum of the record sizes":
+			// a file that is still open is not finished)
+			rule = "C05.stop-closes-files"
+		}
 		if check == "C20" {
 			rule, sig = "C20.closed-after-stop", "sidefiles:open-after-stop"
 		}
@@ -1114,7 +1344,7 @@ func checkSessionFiles(w *pipeWorld, check string, s *wcSession) {
 	switch check {
 	case "C06", "C05b":
 		for c := 0; c < w.nchan; c++ {
-			name := w.ss.chanNames[c]
+			name := s.ident.ch[c].name
 			for t, ext := range []string{"ljh", "ljh3", "off"} {
 				path := fmt.Sprintf(s.pattern, name, ext)
 				want := s.expected[c][t]
@@ -1139,14 +1369,14 @@ func checkSessionFiles(w *pipeWorld, check string, s *wcSession) {
 				for i, r := range want {
 					wantF := int64(r.trigFrame)
 					if t == 0 {
-						wantF = wantF*int64(w.ss.subframeDivisions) + int64(w.ss.subframeOffsets[c])
+						wantF = wantF*int64(s.ident.subdiv) + int64(s.ident.ch[c].suboff)
 					}
 					if frames[i] != wantF {
 						simrt.Fail(check+".records-stored", "wc:record-order:"+ext, "channel %d %s: record %d has frame count %d, the %d-th emitted record has %d", c, ext, i, frames[i], i, wantF)
 					}
 				}
 				if check == "C05b" {
-					checkFileAgainstRecords(w, c, t, path, want, s.offProj[c], s.projAtStart[c])
+					checkFileAgainstRecords(w, s.ident, c, t, path, want, s.offProj[c], s.projAtStart[c])
 				}
 			}
 		}
@@ -1196,17 +1426,21 @@ func framesInFile(t int, b []byte) ([]int64, error) {
 }
 
 // checkFileAgainstRecords is C05's content oracle in the pipeline world.
-func checkFileAgainstRecords(w *pipeWorld, c, t int, path string, recs []*DataRecord, projs []*wcProjSet, atStart *wcProjSet) {
-	rc := w.ss.rowColCodes[c]
-	p := chanParams{index: c, number: w.ss.chanNumbers[c], name: w.ss.chanNames[c], nsamp: w.nsamp, npre: w.npre, timebase: 1.0 / w.rate,
-		rows: rc.rows(), cols: rc.cols(), row: rc.row(), col: rc.col(), nchans: w.nchan, subdiv: w.ss.subframeDivisions, suboff: w.ss.subframeOffsets[c]}
+func checkFileAgainstRecords(w *pipeWorld, id *wcIdentity, c, t int, path string, recs []*DataRecord, projs []*wcProjSet, atStart *wcProjSet) {
+	// the channel's TRUE identity: the harness's own channel table, not what dastard made of it
+	ci := id.ch[c]
+	p := chanParams{index: c, number: ci.number, name: ci.name, nsamp: w.nsamp, npre: w.npre, timebase: 1.0 / w.rate,
+		rows: ci.rows, cols: ci.cols, row: ci.row, col: ci.col, nchans: w.nchan, subdiv: id.subdiv, suboff: ci.suboff, source: id.source}
+	if len(recs) > 0 && (ci.rows != id.ch[0].rows || ci.cols != id.ch[0].cols) {
+		simrt.Hit("identity:header-checked-of-a-channel-whose-geometry-is-not-channel-0's:" + []string{"ljh", "ljh3", "off"}[t])
+	}
 	var want []wantRec
 	for _, r := range recs {
 		want = append(want, wantRec{frame: int64(r.trigFrame), time: r.trigTime, pre: r.presamples, data: r.data, coefs: r.modelCoefs, ptMean: r.pretrigMean, ptDelt: r.pretrigDelta, resid: r.residualStdDev})
 	}
 	switch t {
 	case 0:
-		checkLJH22File(path, p, want, "Scripted")
+		checkLJH22File(path, p, want, id.source)
 	case 1:
 		checkLJH3File(path, p, want, true)
 	default:
